@@ -4,8 +4,9 @@ cd /verif
 names=${@:-$(ls seeded)}
 for n in $names; do
   prop=$(/venv/bin/python -c "import json;print(json.load(open('seeded/$n/meta.json'))['property'])")
-  r=$(tools/try_seed.sh seeded/$n/patch.diff - $prop 2>&1 | grep "^$prop: exit")
+  r=$(tools/try_seed.sh seeded/$n/patch.diff - $prop 2>&1 | grep -e "^$prop: exit" -e "patch does not apply")
   case "$r" in
+    *"does not apply"*) echo "STALE    $n :: patch no longer applies to /repo HEAD (rebase it)";;
     *"exit 1"*) echo "DETECTED $n :: $(echo $r | cut -c1-160)";;
     *) echo "MISSED   $n :: $r";;
   esac
